@@ -204,13 +204,13 @@ func volVerdict(mdl *Model, p volProgram, ops []cop, finals []*Node) (string, er
 	return "", nil
 }
 
-
 // conditional commands against a key that one connection creates and deletes in a loop: whatever the
 // interleaving, every reply must be one the sequential model can give in SOME state the key can be in.
 // q is created only by the toggler's RPUSH q x (cmd_push_spec / cmd_push_missing in PropC03.v: RPUSHX and
 // LPUSHX answer 0 on a missing key and length+1 >= 2 on a list; they never create a key), so:
-//   RPUSHX/LPUSHX q y never answers 1; LINSERT q BEFORE x y answers 0 (missing) or >= 2 (x is always there);
-//   the toggler's RPUSH always answers 1 and its DEL always 1.
+//
+//	RPUSHX/LPUSHX q y never answers 1; LINSERT q BEFORE x y answers 0 (missing) or >= 2 (x is always there);
+//	the toggler's RPUSH always answers 1 and its DEL always 1.
 func c08Conditional(cfg runCfg, res *Result, srv *Server, round int) error {
 	const nPushers = 6
 	conns := make([]*Conn, nPushers+2)
@@ -301,14 +301,14 @@ func c08Conditional(cfg runCfg, res *Result, srv *Server, round int) error {
 	return nil
 }
 
-
 // snapshot consistency: writers replace ALL parts of a value by one fresh tag in a single command
 // (MSET of four keys, HSET of eight fields), or add / remove a fixed group of members or elements in a
 // single command; every state reachable by such commands is uniform (all parts carry the same tag; the
 // group is present completely or not at all), so every reply of a multi-part reader must be uniform. A
 // reader that looks at the value outside the writer's lock section sees a half-applied command.
 func c08Snapshot(cfg runCfg, res *Result, srv *Server, round int) error {
-	const nW, nR = 3, 5
+	const nW, nR = 4, 6
+	const blobN = 128 * 1024
 	conns := make([]*Conn, nW+nR+1)
 	var err error
 	for i := range conns {
@@ -318,6 +318,9 @@ func c08Snapshot(cfg runCfg, res *Result, srv *Server, round int) error {
 		defer conns[i].Close()
 	}
 	conns[nW+nR].Do(3*time.Second, bs("FLUSHALL")...)
+	// a large string whose bytes are all equal: every writer replaces the whole payload by ONE letter in a
+	// single command (SETRANGE bb 0 <blob> without growth, SET bb <blob>), so every reader must see one letter
+	conns[nW+nR].Do(3*time.Second, bs("SET", "bb", strings.Repeat("g", blobN))...)
 	var stop int32
 	var mu sync.Mutex
 	why := ""
@@ -340,7 +343,15 @@ func c08Snapshot(cfg runCfg, res *Result, srv *Server, round int) error {
 			for atomic.LoadInt32(&stop) == 0 && time.Now().Before(deadline) {
 				tag := fmt.Sprintf("w%d-%d", w, n)
 				var a []string
-				switch n % 6 {
+				k := n % 6
+				if w == nW-1 {
+					k = 6 + n%4
+				}
+				switch k {
+				case 6, 7, 8:
+					a = []string{"SETRANGE", "bb", "0", strings.Repeat(string("agco"[n%4]), blobN)}
+				case 9:
+					a = []string{"SET", "bb", strings.Repeat(string("agco"[n%4]), blobN)}
 				case 0:
 					a = []string{"MSET", "ma", tag, "mb", tag, "mc", tag, "md", tag}
 				case 1, 2:
@@ -381,7 +392,13 @@ func c08Snapshot(cfg runCfg, res *Result, srv *Server, round int) error {
 			n := 0
 			for atomic.LoadInt32(&stop) == 0 && time.Now().Before(deadline) {
 				var a []string
-				switch (r + n) % 6 {
+				switch (r + n) % 9 {
+				case 6:
+					a = []string{"BITCOUNT", "bb"}
+				case 7:
+					a = []string{"BITCOUNT", "bb", "1000", "-1000"}
+				case 8:
+					a = []string{"GETRANGE", "bb", "100", "-100"}
 				case 0:
 					a = []string{"MGET", "ma", "mb", "mc", "md"}
 				case 1:
@@ -406,6 +423,15 @@ func c08Snapshot(cfg runCfg, res *Result, srv *Server, round int) error {
 					bad = len(nd.Elems) > 1 && !uniform(nd.Elems)
 				case "SCARD":
 					bad = nd.Int != 0 && nd.Int != 4
+				case "BITCOUNT":
+					// 'a' 3 bits, 'c' 4, 'g' 5, 'o' 6
+					nb := int64(blobN)
+					if len(a) > 2 {
+						nb = blobN - 1999
+					}
+					bad = nd.Int != 3*nb && nd.Int != 4*nb && nd.Int != 5*nb && nd.Int != 6*nb
+				case "GETRANGE":
+					bad = len(nd.Str) != blobN-199 || strings.Trim(string(nd.Str), string(nd.Str[:1])) != ""
 				case "HGETALL":
 					var vals []*Node
 					for i := 1; i < len(nd.Elems); i += 2 {
@@ -414,7 +440,11 @@ func c08Snapshot(cfg runCfg, res *Result, srv *Server, round int) error {
 					bad = len(vals) > 1 && !uniform(vals)
 				}
 				if bad {
-					fail(fmt.Sprintf("%v answered %s while every writer replaces all parts by ONE value in a single command (MSET of 4 keys / HSET of 8 fields / SADD, SREM of 4 members): the reader saw a half-applied command", a, nd.String()))
+					shown := nd.String()
+					if len(shown) > 200 {
+						shown = shown[:200] + "..."
+					}
+					fail(fmt.Sprintf("%v answered %s while every writer replaces all parts by ONE value in a single command (MSET of 4 keys / HSET of 8 fields / SADD, SREM of 4 members / SETRANGE, SET of a whole one-letter payload): the reader saw a half-applied command", a, shown))
 					return
 				}
 				n++
@@ -498,7 +528,9 @@ func c08Volume(cfg runCfg, res *Result, srv *Server, mdl *Model, g *Gen) error {
 
 // replay of a volume finding: the schedule cannot be replayed, the workload can — up to 5 attempts
 func c08VolumeReplay(cfg runCfg, res *Result, srv *Server, mdl *Model, raw []byte) error {
-	var rp struct{ Program volProgram `json:"program"` }
+	var rp struct {
+		Program volProgram `json:"program"`
+	}
 	if err := json.Unmarshal(raw, &rp); err != nil {
 		return err
 	}
